@@ -36,6 +36,18 @@ CHECKS = {
    technique="differential property testing of packaging variants (ascent_run, include_source at random cut points, initialised / re-declared relations, attributes, segment-codegen build) against the reference evaluator",
    text="Each generated program is packaged in up to six ways (ascent_run!/ascent_run_par! with captured inputs, ascent_source!/include_source! cut at random positions into serial, parallel and run macros, initialised relations with a decoy earlier declaration, measure_rule_times, generate_run_timeout) and the whole batch is built a second time with the segment-codegen feature; every variant must equal the reference result.",
    note="Trusted base as for C01. Generic struct signatures are not exercised (recorded as a limit in DESIGN.md)."),
+ "C10": dict(engine="progfuzz", level="exploration", design="4/C10-C12",
+   technique="property-based differential testing of generated programs around a #[ds(eqrel)] relation against the reference evaluator with an explicit equivalence closure (parallel form with schedule perturbation for the binary relation)",
+   text="Generated programs fill a binary or ternary eqrel relation non-recursively, recursively, in stages and key by key, and read it with every bound-column subset in and after its stratum; all plain relations derived from it must equal what the reference derives from the explicitly closed relation. The binary form also runs under ascent_par! in several pools.",
+   note="Trusted base as for C01 plus the reference closure. Parallel programs exclude reads of the binary relation with both columns bound (open finding KF-9: does not compile)."),
+ "C11": dict(engine="progfuzz", level="exploration", design="4/C10-C12",
+   technique="property-based differential testing of generated programs around a #[ds(trrel)] relation against the reference evaluator with an explicit transitive closure",
+   text="As C10 for the trrel provider: cyclic, acyclic and self-looping graphs, several keys, staged and recursive feeding; readers with every access pattern must see exactly the transitive closure including (x,x) on cycles.",
+   note="Trusted base as for C01 plus the reference closure."),
+ "C12": dict(engine="progfuzz", level="exploration", design="4/C10-C12",
+   technique="property-based differential testing of generated programs around a #[ds(trrel_uf)] relation against the reference evaluator with an explicit reflexive transitive closure",
+   text="As C10 for the trrel_uf provider, restricted by three open findings (KF-13, KF-14a, KF-14b, each with a committed failing replay): the tagged relation is filled from inputs only and, in the ternary form, read with the key bound; within that fragment every reader must see exactly the reflexive transitive closure, without panics.",
+   note="Trusted base as for C01 plus the reference closure. The excluded shapes (recursive feeding; key-free reads of the ternary form) are counted in the evidence and are exercised by the committed replays of the open findings."),
  "C13": dict(engine="progfuzz", level="exploration", design="4/C13",
    technique="stateful (model-based) property testing: generated run()/push histories over generated programs against the model 'fresh run on everything pushed so far'",
    text="Operation sequences run() / push(tuple into any plain relation) over generated programs (serial and ascent_par!) are interpreted against the compiled program and against a model (the multiset of all pushed facts); after every run() the relations must equal the reference evaluator's result on the model, and consecutive runs must change nothing. Histories shrink as one proptest value.",
